@@ -73,6 +73,43 @@ class HarnessError(Exception):
     pass
 
 
+def apply_env(scenario):
+    """Per-scenario environment configuration (swarm, DESIGN 2.7): the logging level of the process the library runs in.
+    Part of the scenario (key 'env'), so a replay sets it up the same way."""
+    import logging
+    env = scenario.get('env') if isinstance(scenario, dict) else None
+    if env and env.get('log') == 'DEBUG':
+        root = logging.getLogger()
+        for h in list(root.handlers):
+            root.removeHandler(h)
+        root.addHandler(logging.NullHandler())
+        root.setLevel(logging.DEBUG)
+        logging.disable(logging.NOTSET)
+    else:
+        logging.disable(logging.CRITICAL)
+
+
+#: The simulated machine: address space of every process that runs library code.  A damaged length or dimension field can ask
+#: for gigabytes (e.g. a flipped RP66V1 DIMENSION makes itertools.product build a tuple of 7e8 integers); on a machine with
+#: this much memory the allocation fails at once and the library's own error handling takes over.  Without a limit the
+#: same request stalls for tens of seconds inside C code, where the step budget cannot see it.
+MEMORY_LIMIT_BYTES = 4 << 30
+
+
+def limit_memory():
+    import resource
+    try:
+        soft, hard = resource.getrlimit(resource.RLIMIT_AS)
+        if soft == resource.RLIM_INFINITY or soft > MEMORY_LIMIT_BYTES:
+            resource.setrlimit(resource.RLIMIT_AS, (MEMORY_LIMIT_BYTES, hard))
+    except (ValueError, OSError):
+        pass
+
+
+def gen_env(seed):
+    return {'log': 'DEBUG' if seeds.derive(seed, 'env') % 8 == 0 else 'off'}
+
+
 def exec_in_child(execute, scenario, timeout=CHILD_TIMEOUT_S):
     """Run ``execute(scenario)`` in a forked child (DESIGN 2.10) and return its result dict.
     Returns {'harness_error': text} if the harness itself failed or the wall-clock net fired."""
@@ -83,6 +120,8 @@ def exec_in_child(execute, scenario, timeout=CHILD_TIMEOUT_S):
         try:
             os.close(r)
             try:
+                apply_env(scenario)
+                limit_memory()
                 res = execute(scenario)
                 if isinstance(res, Result):
                     res = res.as_dict()
@@ -150,6 +189,8 @@ def _run_chunk(args):
         t0 = time.perf_counter()
         try:
             scenario = _CHECK.generate(seed, tier)
+            if isinstance(scenario, dict) and 'env' not in scenario:
+                scenario['env'] = gen_env(seed)
         except BaseException:
             out.append({'i': i, 'seed': seed, 'harness_error': 'generate: ' + traceback.format_exc()[-2000:]})
             continue
@@ -157,6 +198,7 @@ def _run_chunk(args):
         res['i'] = i
         res['seed'] = seed
         res['size'] = len(json.dumps(scenario, default=seeds._default))
+        res['env_log'] = scenario.get('env', {}).get('log', 'off')
         res['wall'] = time.perf_counter() - t0
         out.append(res)
     return out
@@ -311,7 +353,9 @@ def main(check, argv=None):
 
     if args.show is not None:
         seed = seeds.derive(base, check.PROPERTY, args.show)
-        print(json.dumps(check.generate(seed, args.tier), indent=1, default=seeds._default))
+        sc = check.generate(seed, args.tier)
+        sc.setdefault('env', gen_env(seed))
+        print(json.dumps(sc, indent=1, default=seeds._default))
         return 0
     if args.replay:
         return replay(check, args.replay)
@@ -321,34 +365,40 @@ def main(check, argv=None):
     jobs = max(1, min(args.jobs, len(indices)))
     chunk = max(1, min(50, len(indices) // (jobs * 4) or 1))
     tasks = [(indices[k:k + chunk], args.tier, base) for k in range(0, len(indices), chunk)]
-    runs = []
-    ctx = multiprocessing.get_context('fork')
-    with concurrent.futures.ProcessPoolExecutor(max_workers=jobs, mp_context=ctx) as ex:
-        futs = [ex.submit(_run_chunk, t) for t in tasks]
-        for fu in futs:
-            try:
-                runs.extend(fu.result(timeout=3600))
-            except Exception:
-                print('HARNESS-ERROR worker: ' + traceback.format_exc(), file=sys.stderr)
-                return 2
-    runs.sort(key=lambda r: r['i'])
-    t_exec = time.perf_counter() - t_start
-
-    if args.emit_digests:
-        with open(args.emit_digests, 'w') as f:
-            json.dump({str(r['i']): r.get('digest', 'HARNESS:' + r.get('harness_error', '')[:200]) for r in runs}, f)
-
-    harness_errors = [r for r in runs if 'harness_error' in r]
-    ok_runs = [r for r in runs if 'harness_error' not in r]
-
+    # ---- streaming aggregation: nothing is kept per run except a small tuple (and the violating runs themselves)
     probes, ops, faults = {}, {}, {}
     shapes_nontrivial = set()
     shapes_all = set()
+    digests_seen = set()
     known_seen = {}
     violating = []
+    harness_errors = []
+    n_harness = 0
     sim_time = 0.0
     faulted_runs = 0
-    for r in ok_runs:
+    n_ok = 0
+    n_events = 0
+    n_debug = 0
+    sizes = []            # (size, run index, seed, digest)
+    digest_map = {} if args.emit_digests else None
+    extra_acc = {}
+    accumulate = getattr(check, 'evidence_accumulate', None)
+
+    def absorb(r):
+        nonlocal n_harness, sim_time, faulted_runs, n_ok, n_events, n_debug
+        if digest_map is not None:
+            digest_map[str(r['i'])] = r.get('digest', 'HARNESS:' + r.get('harness_error', '')[:200])
+        if 'harness_error' in r:
+            n_harness += 1
+            if len(harness_errors) < 20:
+                harness_errors.append(r)
+            return
+        n_ok += 1
+        n_events += r['n_events']
+        digests_seen.add(r['digest'])
+        sizes.append((r['size'], r['i'], r['seed'], r['digest']))
+        if r.get('env_log') == 'DEBUG':
+            n_debug += 1
         _merge(probes, r['probes'])
         _merge(ops, r['ops'])
         _merge(faults, r['faults'])
@@ -358,15 +408,33 @@ def main(check, argv=None):
         shapes_all.add(r['shape'])
         if r['probes']:
             shapes_nontrivial.add(r['shape'])
+        if accumulate is not None:
+            accumulate(extra_acc, r)
         unknown, known = classify(check, r)
         if args.focus:
             unknown = [v for v in unknown if any((v['cls'] + ' ' + ' '.join(f'{k}={x}' for k, x in v['facts'].items())).find(f) >= 0 for f in args.focus.split(','))]
-            unknown.sort(key=lambda v: 0)
         for kid, entry in known.items():
             known_seen.setdefault(kid, {'entry': entry, 'runs': 0})
             known_seen[kid]['runs'] += 1
         if unknown:
-            violating.append((r, unknown))
+            violating.append(({'i': r['i'], 'seed': r['seed'], 'digest': r['digest'], 'violations': r['violations']} if len(violating) >= 200 else r, unknown))
+
+    ctx = multiprocessing.get_context('fork')
+    with concurrent.futures.ProcessPoolExecutor(max_workers=jobs, mp_context=ctx) as ex:
+        futs = [ex.submit(_run_chunk, t) for t in tasks]
+        for fu in futs:
+            try:
+                for r in fu.result(timeout=3600):
+                    absorb(r)
+            except Exception:
+                print('HARNESS-ERROR worker: ' + traceback.format_exc(), file=sys.stderr)
+                return 2
+    violating.sort(key=lambda rv: rv[0]['i'])
+    t_exec = time.perf_counter() - t_start
+
+    if args.emit_digests:
+        with open(args.emit_digests, 'w') as f:
+            json.dump(digest_map, f)
 
     for kid in sorted(known_seen):
         e = known_seen[kid]
@@ -389,6 +457,7 @@ def main(check, argv=None):
         if len(seen_cls) > 3:
             break
         scenario = check.generate(r['seed'], args.tier)
+        scenario.setdefault('env', gen_env(r['seed']))
         original = len(json.dumps(scenario, default=seeds._default))
         spent = 0
         res = r
@@ -408,14 +477,15 @@ def main(check, argv=None):
         print(f'HARNESS-ERROR run={r["i"]} seed={r["seed"]}: {r["harness_error"]}', file=sys.stderr)
 
     wall = time.perf_counter() - t_start
-    if not args.no_evidence and ok_runs:
-        by_size = sorted(ok_runs, key=lambda r: (r['size'], r['i']))
-        picks = [by_size[0], by_size[len(by_size) // 2], by_size[-1]]
+    if not args.no_evidence and n_ok:
+        sizes.sort()
+        picks = [sizes[0], sizes[len(sizes) // 2], sizes[-1]]
         samples = []
-        for r in picks:
-            sc = check.generate(r['seed'], args.tier)
+        for _size, r_i, r_seed, r_digest in picks:
+            sc = check.generate(r_seed, args.tier)
+            sc.setdefault('env', gen_env(r_seed))
             text = json.dumps(sc, default=seeds._default)
-            samples.append({'run_index': r['i'], 'seed': r['seed'], 'digest': r['digest'],
+            samples.append({'run_index': r_i, 'seed': r_seed, 'digest': r_digest,
                             'scenario': sc if len(text) < 6000 else {'truncated_json': text[:6000]}})
         zero = sorted(p for p in getattr(check, 'PROBES', []) if not probes.get(p))
         ev = {
@@ -424,12 +494,12 @@ def main(check, argv=None):
             'seed': base,
             'level': check.LEVEL,
             'coverage': {
-                'evaluations': len(ok_runs),
+                'evaluations': n_ok,
                 'distinct_nontrivial': len(shapes_nontrivial),
                 'rule': check.RULE,
                 'samples': samples,
                 'exhaustive': False,
-                'runs_per_hour': int(len(ok_runs) / max(t_exec, 1e-6) * 3600),
+                'runs_per_hour': int(n_ok / max(t_exec, 1e-6) * 3600),
                 'seeds': {'base': base, 'first_run_index': indices[0], 'last_run_index': indices[-1],
                           'derivation': 'blake2b(VERIF_SEED:property:run_index)'},
                 'sim_time_s': round(sim_time, 3),
@@ -438,11 +508,12 @@ def main(check, argv=None):
                 'probes': dict(sorted(probes.items())),
                 'probes_at_zero': zero,
                 'distinct_shapes': len(shapes_all),
-                'distinct_event_logs': len({r['digest'] for r in ok_runs}),
-                'events_total': sum(r['n_events'] for r in ok_runs),
-                'fault_free_runs': len(ok_runs) - faulted_runs,
+                'distinct_event_logs': len(digests_seen),
+                'events_total': n_events,
+                'fault_free_runs': n_ok - faulted_runs,
                 'faulted_runs': faulted_runs,
-                'harness_errors': len(harness_errors),
+                'harness_errors': n_harness,
+                'runs_with_debug_logging_enabled': n_debug,
                 'known_findings_seen': sorted(known_seen),
                 'real_components': check.REAL,
                 'stub_components': check.STUB,
@@ -454,7 +525,7 @@ def main(check, argv=None):
         }
         extra = getattr(check, 'evidence_extra', None)
         if extra:
-            ev['coverage'].update(extra(ok_runs))
+            ev['coverage'].update(extra(extra_acc))
         try:
             validate_evidence(ev)
         except HarnessError as err:
@@ -464,11 +535,11 @@ def main(check, argv=None):
         with open(os.path.join(VERIF, 'evidence', f'{check.PROPERTY}.json'), 'w') as f:
             json.dump(ev, f, indent=1, default=seeds._default)
 
-    print(f'{check.PROPERTY}: runs={len(ok_runs)} violating={len(violating)} known={sorted(known_seen)} '
-          f'harness_errors={len(harness_errors)} shapes={len(shapes_nontrivial)} wall={wall:.1f}s '
-          f'({int(len(ok_runs) / max(t_exec, 1e-6) * 3600)} runs/h)')
+    print(f'{check.PROPERTY}: runs={n_ok} violating={len(violating)} known={sorted(known_seen)} '
+          f'harness_errors={n_harness} shapes={len(shapes_nontrivial)} wall={wall:.1f}s '
+          f'({int(n_ok / max(t_exec, 1e-6) * 3600)} runs/h)')
     if reported:
         return 1
-    if harness_errors:
+    if n_harness:
         return 2
     return 0
